@@ -551,3 +551,204 @@ Proof.
     + rewrite (Hnil eq_refl). cbn. lia.
     + assert (sumz (body y) < sumz (b :: rest)) by (apply Hdec; discriminate). lia.
 Qed.
+
+(* ------------------------------------------------------------------ *)
+(** * Wake-ups: the WRITABLE bit next to the books
+
+    Edge-triggered readiness: [write_streams] runs only while WRITABLE is armed,
+    and [finalize_write] strips it when a pass ends with nothing sendable.  The
+    code re-arms it ([Readiness::arm_writable]) when credit arrives and a window
+    goes from <= 0 to > 0 ([handle_window_update_frame],
+    [update_initial_window_size]) and when the other side of the stream queues
+    new bytes ([handle_data_frame] arms the linked endpoint).  [arm_on_credit]
+    = what the code does ([true]); with [false] the model loses wake-ups. *)
+Record wk := mkwk { wb : books; armed : bool }.
+
+Inductive wevent :=
+| WPeer (e : event)             (* WINDOW_UPDATE / SETTINGS / another stream's turn *)
+| WData (c : Z)                 (* the other side of the stream queued c more body bytes *)
+| WLoop (fuel : nat).           (* the event loop: runs writable() iff WRITABLE is armed *)
+
+Definition crossed (before after : Z) : bool := (before <=? 0) && (0 <? after).
+
+Definition wstep (arm_on_credit : bool) (s : wk) (e : wevent) : wk * list Z :=
+  let b := wb s in
+  match e with
+  | WPeer (EWrite _) => (s, [])                       (* write turns only come from the loop *)
+  | WPeer pe =>
+    let '(b', fr) := bstep b pe in
+    let opened := crossed (b_sw b) (b_sw b') || crossed (b_cw b) (b_cw b') in
+    (mkwk b' (armed s || (arm_on_credit && opened)), fr)
+  | WData c =>
+    if b_dead b || (c <=? 0) then (s, [])
+    else (mkwk (mkbooks (b_sw b) (b_cw b) (b_init b) (b_mf b) (b_body b ++ [c]) (k_cs b) (k_ss b) (k_cc b) (k_sc b) false) true, [])
+  | WLoop fuel =>
+    if armed s then
+      match prepare fuel false (Z.min (b_sw b) (b_cw b)) (b_mf b) (b_body b) [] with
+      | None => (s, [])                               (* not enough fuel given: no-op *)
+      | Some _ => let '(b', fr) := bstep b (EWrite fuel) in (mkwk b' false, fr)
+      end
+    else (s, [])
+  end.
+
+(** no lost wake-up: whenever something can be sent, WRITABLE is armed *)
+Definition sendable (b : books) : Prop :=
+  b_dead b = false /\ b_body b <> [] /\ 0 < b_sw b /\ 0 < b_cw b.
+
+Definition wk_inv (s : wk) : Prop :=
+  balanced (wb s) /\ 0 < b_mf (wb s) /\ Forall (fun c => 0 < c) (b_body (wb s)) /\
+  (sendable (wb s) -> armed s = true).
+
+Lemma prepare_stops fuel : forall window mf chunks acc frames lft w',
+  0 < mf -> Forall (fun c => 0 < c) chunks ->
+  prepare fuel false window mf chunks acc = Some (frames, lft, w') ->
+  lft = [] \/ w' <= 0.
+Proof.
+  induction fuel as [|fuel IH]; intros window mf chunks acc frames lft w' Hm Hc H.
+  - destruct chunks; cbn [prepare] in H; [|discriminate]. inversion H; subst. left; reflexivity.
+  - destruct chunks as [|c rest]; cbn [prepare] in H; [inversion H; subst; left; reflexivity|].
+    inversion Hc as [|? ? Hc0 Hcr]; subst.
+    unfold emit_data in H.
+    destruct ((c <=? I32_MAX) && (c <=? window) && (c <=? mf)) eqn:F.
+    + cbn [e_frame e_rest e_window e_continue andb negb] in H.
+      change (0 <? 0) with false in H. cbv iota in H.
+      eapply IH; [exact Hm|exact Hcr|exact H].
+    + destruct (0 <? window) eqn:W.
+      * cbn [e_frame e_rest e_window e_continue] in H.
+        destruct (mf <? window) eqn:G; cbn [andb negb] in H.
+        -- eapply IH; [exact Hm| |exact H].
+           destruct (0 <? c - Z.min mf window) eqn:R; [constructor; [apply Z.ltb_lt in R; exact R|exact Hcr]|exact Hcr].
+        -- apply Z.ltb_ge in G. inversion H; subst. right. lia.
+      * cbn [e_frame] in H. apply Z.ltb_ge in W. inversion H; subst. right. exact W.
+Qed.
+
+Lemma bstep_keeps_positive b e b' fr :
+  Forall (fun c => 0 < c) (b_body b) -> bstep b e = (b', fr) ->
+  Forall (fun c => 0 < c) (b_body b') /\ b_mf b' = b_mf b.
+Proof.
+  intros Hp H. unfold bstep in H. destruct (b_dead b); [inversion H; subst; split; [exact Hp|reflexivity]|].
+  destruct e as [inc|inc|v|k|fuel].
+  - destruct (_ || _); [inversion H; subst; split; [exact Hp|reflexivity]|].
+    destruct (checked_add _ _); inversion H; subst; split; try exact Hp; reflexivity.
+  - destruct (_ || _); [inversion H; subst; split; [exact Hp|reflexivity]|].
+    destruct (checked_add _ _); inversion H; subst; split; try exact Hp; reflexivity.
+  - destruct (_ || _); [inversion H; subst; split; [exact Hp|reflexivity]|].
+    destruct (checked_add _ _); inversion H; subst; split; try exact Hp; reflexivity.
+  - destruct (_ || _); inversion H; subst; split; try exact Hp; reflexivity.
+  - destruct (prepare fuel false _ _ _ []) as [[[frames lft] w']|] eqn:P; inversion H; subst.
+    + split; [eapply prepare_keeps_positive; eauto|reflexivity].
+    + split; [exact Hp|reflexivity].
+Qed.
+
+Lemma bstep_peer_facts b pe b' fr :
+  (forall fuel, pe <> EWrite fuel) -> bstep b pe = (b', fr) ->
+  b_body b' = b_body b /\ (b_dead b = true -> b_dead b' = true).
+Proof.
+  intros Hne H. unfold bstep in H. destruct (b_dead b) eqn:D.
+  { inversion H; subst. split; [reflexivity|intros _; exact D]. }
+  destruct pe as [inc|inc|v|k|fuel]; [| | | |exfalso; eapply Hne; reflexivity].
+  - destruct (_ || _); [inversion H; subst; split; [reflexivity|discriminate]|].
+    destruct (checked_add _ _); inversion H; subst; split; try reflexivity; discriminate.
+  - destruct (_ || _); [inversion H; subst; split; [reflexivity|discriminate]|].
+    destruct (checked_add _ _); inversion H; subst; split; try reflexivity; discriminate.
+  - destruct (_ || _); [inversion H; subst; split; [reflexivity|discriminate]|].
+    destruct (checked_add _ _); inversion H; subst; split; try reflexivity; discriminate.
+  - destruct (_ || _); inversion H; subst; split; try reflexivity; discriminate.
+Qed.
+
+Lemma wpeer_inv s pe b' fr :
+  wk_inv s -> (forall fuel, pe <> EWrite fuel) -> bstep (wb s) pe = (b', fr) ->
+  wk_inv (mkwk b' (armed s || (true && (crossed (b_sw (wb s)) (b_sw b') || crossed (b_cw (wb s)) (b_cw b'))))).
+Proof.
+  intros (Hb & Hm & Hp & Ha) Hne S.
+  destruct (bstep_balanced _ _ _ _ Hb S) as (Hb' & _).
+  destruct (bstep_keeps_positive _ _ _ _ Hp S) as (Hp' & Hmf').
+  destruct (bstep_peer_facts _ _ _ _ Hne S) as (Hbody & Hdead).
+  unfold wk_inv. cbn [wb armed].
+  split; [exact Hb'|]. split; [rewrite Hmf'; exact Hm|]. split; [exact Hp'|].
+  intros (Sd & Sb & Ssw & Scw). cbn [andb].
+  destruct (armed s) eqn:Ar; [reflexivity|]. cbn [orb]. unfold crossed.
+  destruct (b_sw (wb s) <=? 0) eqn:C1; [assert (0 <? b_sw b' = true) as -> by (apply Z.ltb_lt; exact Ssw); reflexivity|].
+  destruct (b_cw (wb s) <=? 0) eqn:C2; [assert (0 <? b_cw b' = true) as -> by (apply Z.ltb_lt; exact Scw); cbn; reflexivity|].
+  apply Z.leb_gt in C1, C2. exfalso.
+  assert (Hs : sendable (wb s)).
+  { split; [destruct (b_dead (wb s)) eqn:D; [rewrite (Hdead eq_refl) in Sd; discriminate|reflexivity]|].
+    split; [rewrite <- Hbody; exact Sb|]. split; assumption. }
+  specialize (Ha Hs). congruence.
+Qed.
+
+Lemma wstep_inv s e s' fr : wk_inv s -> wstep true s e = (s', fr) -> wk_inv s'.
+Proof.
+  intros Hinv H. pose proof Hinv as (Hb & Hm & Hp & Ha). unfold wstep in H.
+  destruct e as [pe|c|fuel].
+  - destruct pe as [inc|inc|v|k|fuel].
+    + destruct (bstep (wb s) (EWUconn inc)) as [b' fr'] eqn:S. inversion H; subst. eapply wpeer_inv; eauto. discriminate.
+    + destruct (bstep (wb s) (EWUstream inc)) as [b' fr'] eqn:S. inversion H; subst. eapply wpeer_inv; eauto. discriminate.
+    + destruct (bstep (wb s) (ESettingsIW v)) as [b' fr'] eqn:S. inversion H; subst. eapply wpeer_inv; eauto. discriminate.
+    + destruct (bstep (wb s) (EOther k)) as [b' fr'] eqn:S. inversion H; subst. eapply wpeer_inv; eauto. discriminate.
+    + inversion H; subst. exact Hinv.
+  - destruct (b_dead (wb s) || (c <=? 0)) eqn:G; inversion H; subst; [exact Hinv|].
+    apply Bool.orb_false_iff in G. destruct G as [G1 G2]. apply Z.leb_gt in G2.
+    destruct Hb as (B1 & B2 & B3 & B4 & B5 & B6).
+    unfold wk_inv. cbn [wb armed].
+    split.
+    { unfold balanced; cbn. repeat split; try assumption; try lia.
+      apply Forall_app; split; [exact B6|constructor; [lia|constructor]]. }
+    split; [exact Hm|]. split; [apply Forall_app; split; [exact Hp|constructor; [exact G2|constructor]]|].
+    intros _. reflexivity.
+  - destruct (armed s) eqn:Ar; [|inversion H; subst; exact Hinv].
+    destruct (prepare fuel false (Z.min (b_sw (wb s)) (b_cw (wb s))) (b_mf (wb s)) (b_body (wb s)) []) as [[[frames lft] w']|] eqn:P;
+      [|inversion H; subst; exact Hinv].
+    destruct (bstep (wb s) (EWrite fuel)) as [b' fr'] eqn:S. inversion H; subst; clear H.
+    destruct (bstep_balanced _ _ _ _ Hb S) as (Hb' & _).
+    destruct (bstep_keeps_positive _ _ _ _ Hp S) as (Hp' & Hmf').
+    unfold wk_inv. cbn [wb armed].
+    split; [exact Hb'|]. split; [rewrite Hmf'; exact Hm|]. split; [exact Hp'|].
+    intros (Sd & Sb & Ssw & Scw). exfalso.
+    unfold bstep in S. destruct (b_dead (wb s)) eqn:D; [inversion S; subst; congruence|]. rewrite P in S.
+    inversion S; subst; clear S. cbn [b_dead b_body b_sw b_cw] in *.
+    pose proof (prepare_stops _ _ _ _ _ _ _ _ Hm Hp P) as [Hl|Hw]; [contradiction|].
+    pose proof P as P2. apply prepare_sound in P2.
+    + destruct P2 as (em & Hf & _ & Hsum & Hpos & _ & Hmax & _).
+      destruct Hb as (_ & _ & Bs & Bc & _). unfold saturating_sub, I32_MIN, I32_MAX in *. lia.
+    + lia.
+    + destruct Hb as (_ & _ & Bs & _). unfold I32_MAX in *. lia.
+    + eapply Forall_impl; [|exact Hp]. cbn. intros. lia.
+Qed.
+
+Lemma wrun_inv evs : forall s, wk_inv s -> wk_inv (fold_left (fun st e => fst (wstep true st e)) evs s).
+Proof.
+  induction evs as [|e r IH]; intros s H; [exact H|]. cbn [fold_left]. apply IH.
+  destruct (wstep true s e) as [s' fr] eqn:S. cbn [fst]. eapply wstep_inv; eauto.
+Qed.
+
+(** so: whenever bytes are queued and both windows are positive, the loop WILL run a
+    write pass, and that pass strictly reduces what is queued *)
+Lemma wakeup_then_progress s fuel :
+  wk_inv s -> sendable (wb s) ->
+  armed s = true /\
+  forall s' fr, wstep true s (WLoop fuel) = (s', fr) ->
+    prepare fuel false (Z.min (b_sw (wb s)) (b_cw (wb s))) (b_mf (wb s)) (b_body (wb s)) [] <> None ->
+    (0 < fuel)%nat ->
+    sumz (b_body (wb s')) < sumz (b_body (wb s)) /\ 0 < sumz fr.
+Proof.
+  intros (Hb & Hm & Hp & Ha) Hs. split; [apply Ha; exact Hs|].
+  intros s' fr H Hne Hf. unfold wstep in H. rewrite (Ha Hs) in H.
+  destruct (prepare fuel false _ _ _ []) as [[[frames lft] w']|] eqn:P; [|contradiction].
+  unfold bstep in H. destruct Hs as (Sd & Sb & Ssw & Scw). rewrite Sd, P in H. inversion H; subst; clear H. cbn [wb b_body].
+  destruct (b_body (wb s)) as [|c rest] eqn:Hbody; [contradiction|].
+  inversion Hp as [|? ? Hc0 Hcr]; subst.
+  destruct Hb as (_ & _ & Bs & Bc & _).
+  pose (x := mkstream 0 (b_sw (wb s)) (c :: rest)).
+  pose (cn := mkconn (b_cw (wb s)) 0 (b_mf (wb s)) 0 0 true [] false).
+  assert (W : write_stream fuel cn x =
+              Some (mkstream 0 (saturating_sub (b_sw (wb s)) (Z.min (b_sw (wb s)) (b_cw (wb s)) - w')) lft,
+                    saturating_sub (b_cw (wb s)) (Z.min (b_sw (wb s)) (b_cw (wb s)) - w'), fr)).
+  { unfold write_stream, x, cn. cbn [swin cwin max_frame body sid]. rewrite P. reflexivity. }
+  assert (Hr0 : Forall (fun k => 0 <= k) rest) by (eapply Forall_impl; [|exact Hcr]; cbn; intros; lia).
+  assert (H1 : 0 < swin x <= I32_MAX) by (unfold x; cbn [swin]; split; [exact Ssw|apply Bs]).
+  assert (H2 : 0 < cwin cn <= I32_MAX) by (unfold cn; cbn [cwin]; split; [exact Scw|apply Bc]).
+  assert (H3 : 0 < max_frame cn) by (unfold cn; cbn [max_frame]; exact Hm).
+  pose proof (progress_round fuel cn x c rest _ _ _ eq_refl Hc0 Hr0 H1 H2 H3 Hf W) as [P1 P2].
+  cbn [body] in P1. split; [exact P1|exact P2].
+Qed.
